@@ -43,7 +43,10 @@ def coarse_grids(prop, tier, seed):
     cases = sc.coarse_grid_cases(seed, _n(tier, 24, 80))
     # whole-window partition: aligned windows hold; the unaligned weekly one is known finding D25 (steps before the first anchor are dropped)
     cases = [dict(tz=None, fine='h', coarse='d', start='2021-01-04', days=3, whole=True), dict(tz='CET', fine='h', coarse='W', start='2021-03-26', days=14, whole=True),
-             dict(tz=None, fine='d', coarse='W', start='2021-01-04', days=14, whole=True, unaligned=True, d25=True)] + cases
+             dict(tz=None, fine='d', coarse='W', start='2021-01-04', days=14, whole=True, unaligned=True, d25=True),
+             # windows sticking out of the grid by a fraction of a coarse step (asset valid from midnight, horizon from 06:00 / to noon)
+             dict(tz=None, fine='h', coarse='d', start='2021-03-01 06:00', days=3, woff=(-6, 0)),
+             dict(tz='CET', fine='h', coarse='d', start='2021-03-27', days=2.5, woff=(0, 12))] + cases
     b = run_cases(sc.check_coarse_grid, cases, 'real Timegrids: fine/coarse frequency pairs x zones (naive, CET, US/Eastern) x windows over both DST switches, two main time units; every case distinct',
                   'windows of 3-14 days, 5 frequency pairs', 40 if tier == 'quick' else 300)
     b['failures'] = [f for f in b['failures'] if f['name'].startswith(prop) or f.get('error')]
